@@ -352,6 +352,14 @@ func oneTree(e *mavlh.Eng, r *gen.Rand, cfg mavlh.Cfg) {
 		if b == 0 && forgeVariant != 0 {
 			kvs = append(kvs, crafted)
 		}
+		if cfg.MemTree {
+			// with enableMemTree a batch that re-creates an existing root at another height leaves a stale root record
+			// in the process-global memTree (KNOWN-FINDING C02|...: the root is the one key without height prefix);
+			// reads then go through child keys of the other height — proofs differ in a key prefix, and worse.  That
+			// shape is hunted and replayed by C02 (lazy model); here every batch of a memTree store writes one key
+			// no earlier state has, so that no root repeats.  Stores without memTree keep the no-op batches.
+			kvs = append(kvs, mavlh.KV{K: []byte(fmt.Sprintf("~b%02d", b)), V: r.Bytes(r.Range(1, 6))})
+		}
 		root, st := e.Set(parent, int64(b+1), kvs)
 		if len(st) < 5 || st[:5] != "root " {
 			out.Pred("C03|Store.Set|"+st, "")
